@@ -111,6 +111,8 @@ pub struct Opts {
     pub read_unchanged: bool,
     /// issue each list-valued query twice on the same instance
     pub obs_twice: bool,
+    /// after the observation commit both instances and require identical database contents
+    pub commit_compare: bool,
     pub obs_cfg_slots: Vec<u64>,
     pub probes: Vec<(String, Value)>,
 }
@@ -126,6 +128,7 @@ impl Opts {
             err_unchanged: true,
             read_unchanged: false,
             obs_twice: false,
+            commit_compare: false,
             obs_cfg_slots: vec![0, 1, 2, 3],
             probes: Vec::new(),
         }
@@ -142,7 +145,7 @@ pub struct Runner<'a> {
     pub start_name: String,
     pub alphabet: Vec<Macro>,
     pub stats: Stats,
-    memo: HashMap<u128, (u64, u64)>,
+    memo: HashMap<u128, (u64, u64, u128)>,
     states: HashSet<u128>,
     outcomes: HashSet<u64>,
     /// property-specific oracle evaluated at every block boundary of the last macro and at the end
@@ -242,10 +245,17 @@ impl<'a> Runner<'a> {
                             Expect::Any => {}
                         }
                     }
+                    if let Step::Read { method, .. } = s {
+                        if o.call.method != "<skip>" {
+                            let k = format!("read.{}.{}", method, if o.outcome.is_ok() { "ok" } else { "err" });
+                            self.stats.bump(&k);
+                        }
+                    }
                     if let Some(before) = &before {
                         let is_read = matches!(s, Step::Read { .. });
                         let env_ok = o.outcome.err_msg().map(|m| m.starts_with("Bitcoin RPC status check failed")).unwrap_or(false);
-                        if (self.opts.err_unchanged && o.outcome.is_err() && !env_ok && !is_read) || (self.opts.read_unchanged && is_read) {
+                        if o.call.method == "<skip>" {
+                        } else if (self.opts.err_unchanged && o.outcome.is_err() && !env_ok && !is_read) || (self.opts.read_unchanged && is_read) {
                             let after = obs::masked(self.subject.dump());
                             if obs::lfp(before) != obs::lfp(&after) {
                                 let kind = if is_read { "read-changed-state" } else { "error-changed-state" };
@@ -272,7 +282,7 @@ impl<'a> Runner<'a> {
     }
 
     /// Replay the normal form on the reference instance; returns (hash of call outcomes, hash of obs, texts)
-    fn run_reference(&mut self, world: &World, want_text: bool) -> (Vec<String>, String, bool) {
+    fn run_reference(&mut self, world: &World, want_text: bool) -> (Vec<String>, String, bool, u128) {
         if self.reference.uses > self.recycle_every * 50 {
             self.reference.recreate();
         } else {
@@ -294,7 +304,14 @@ impl<'a> Runner<'a> {
         let cfg = self.obs_cfg(world);
         let ob = if broke { "REFERENCE PANICKED".to_string() } else { obs::obs(&mut self.reference, &world.uni, &cfg) };
         let _ = want_text;
-        (outcomes, ob, broke)
+        let mut cfp = 0u128;
+        if self.opts.commit_compare && !broke && world.count() == 0 {
+            let r = self.reference.call("brc20_commitToDatabase", json!([]));
+            if r.is_ok() {
+                cfp = obs::fp(&obs::masked(self.reference.dump()));
+            }
+        }
+        (outcomes, ob, broke, cfp)
     }
 
     /// All checks for one path.
@@ -308,7 +325,10 @@ impl<'a> Runner<'a> {
         }
         let d = obs::masked(self.subject.dump());
         self.states.insert(obs::fp(&d));
-        if self.opts.nf_compare && (has_dev || self.opts.twin_always) {
+        if world.desync {
+            self.stats.bump("desync.not_compared");
+        }
+        if self.opts.nf_compare && (has_dev || self.opts.twin_always) && !world.desync {
             let cfg = self.obs_cfg(&world);
             let ob = obs::obs(&mut self.subject, &world.uni, &cfg);
             self.stats.observed += 1;
@@ -325,11 +345,11 @@ impl<'a> Runner<'a> {
             let key = h128(&(&nf, &world.uni, world.count()));
             let so_hash = h64(&subject_outcomes);
             let hit = self.memo.get(&key).cloned();
-            let (ro_hash, robs_hash) = match hit {
+            let (ro_hash, robs_hash, _rcfp) = match hit {
                 Some(x) => x,
                 None => {
-                    let (ro, robs, _) = self.run_reference(&world, false);
-                    let x = (h64(&ro.iter().collect::<Vec<_>>()), h64(&robs));
+                    let (ro, robs, _, cfp) = self.run_reference(&world, false);
+                    let x = (h64(&ro.iter().collect::<Vec<_>>()), h64(&robs), cfp);
                     if self.memo.len() < 2_000_000 {
                         self.memo.insert(key, x);
                     }
@@ -338,7 +358,7 @@ impl<'a> Runner<'a> {
             };
             if ro_hash != so_hash || robs_hash != obs_hash {
                 // recompute for the texts
-                let (ro, robs, broke) = self.run_reference(&world, true);
+                let (ro, robs, broke, _) = self.run_reference(&world, true);
                 if broke {
                     violations.push(self.viol("reference-panicked", path, "the normal form panicked on the reference instance".into()));
                 } else {
@@ -363,6 +383,20 @@ impl<'a> Runner<'a> {
                         violations.push(self.viol("differs-from-normal-form", path, detail));
                     } else {
                         self.stats.machinery_errors.push(format!("hash mismatch without textual difference on {:?}", path));
+                    }
+                }
+            }
+        }
+        if self.opts.nf_compare && self.opts.commit_compare && (has_dev || self.opts.twin_always) && world.count() == 0 && !self.subject.broken {
+            // "the same database contents after commit": commit the subject and compare the complete representation
+            let key = h128(&(&world.nf_calls().iter().map(|r| &r.call).collect::<Vec<_>>(), &world.uni, world.count()));
+            if let Some((_, _, rcfp)) = self.memo.get(&key).cloned() {
+                let r = self.subject.call("brc20_commitToDatabase", json!([]));
+                if r.is_ok() && rcfp != 0 {
+                    let sfp = obs::fp(&obs::masked(self.subject.dump()));
+                    self.stats.bump("checked.commit_compare");
+                    if sfp != rcfp {
+                        violations.push(self.viol("database-contents-differ-after-commit", path, "after committing both, the rows of the subject's databases differ from those of the run without the deviations".into()));
                     }
                 }
             }
